@@ -445,6 +445,68 @@ Qed.
 End UVRModel.
 
 (* ------------------------------------------------------------------ *)
+(* a symmetric positive definite matrix has a positive determinant
+   (induction on the size through the Schur complement of the top-left entry) *)
+Section SpdDet.
+Variable F : realFieldType.
+
+Lemma spd_ulsub m n (Aul : 'M[F]_m) (Aur : 'M[F]_(m,n)) (Adl : 'M[F]_(n,m)) (Adr : 'M[F]_n) :
+  spd (block_mx Aul Aur Adl Adr) -> spd Aul.
+Proof.
+case=> sA pA; split.
+  by move: sA; rewrite /sym tr_block_mx => /eq_block_mx [].
+move=> x xn0.
+have -> : qf Aul x = qf (block_mx Aul Aur Adl Adr) (row_mx x 0).
+  by rewrite /qf mul_row_block !mul0mx !addr0 tr_row_mx trmx0 mul_row_col mulmx0 addr0.
+by apply: pA; rewrite row_mx_eq0 negb_and xn0.
+Qed.
+
+Lemma spd_mx11_gt0 (a : 'M[F]_1) : spd a -> 0 < \det a.
+Proof.
+case=> _ pa; rewrite det_mx11.
+have := pa 1%:M (oner_neq0 _).
+by rewrite /qf mul1mx trmx1 mulmx1.
+Qed.
+
+Lemma spd_det_step n : (forall B : 'M[F]_n, spd B -> 0 < \det B) ->
+  forall A : 'M[F]_(1 + n), spd A -> 0 < \det A.
+Proof.
+move=> IH A; rewrite -[A]submxK.
+set a := ulsubmx _; set b := ursubmx _; set c := dlsubmx _; set D := drsubmx _ => sA.
+have sa : spd a := spd_ulsub sA.
+have ua := spd_unit sa.
+have [symA posA] := sA.
+have [ta tc tb tD] : [/\ a^T = a, c^T = b, b^T = c & D^T = D].
+  by move: symA; rewrite /sym tr_block_mx => /eq_block_mx [].
+pose S := D - c *m invmx a *m b.
+have E : block_mx a b c D = block_mx 1%:M 0 (c *m invmx a) 1%:M *m block_mx a b 0 S.
+  rewrite mulmx_block !mul1mx !mul0mx ?mulmx0 !addr0 -[c *m invmx a *m a]mulmxA (mulVmx ua) mulmx1.
+  by rewrite /S addrC subrK.
+have sS : spd S.
+  split.
+    by rewrite /sym /S linearB /= !trmx_mul trmx_inv ta tb tc tD mulmxA.
+  move=> y yn0.
+  pose s : 'rV[F]_1 := - (y *m c *m invmx a).
+  have -> : qf S y = qf (block_mx a b c D) (row_mx s y).
+    rewrite /qf mul_row_block tr_row_mx mul_row_col.
+    have -> : s *m a + y *m c = 0.
+      by rewrite /s mulNmx -[_ *m invmx a *m a]mulmxA (mulVmx ua) mulmx1 addNr.
+    rewrite mul0mx add0r /S mulmxBr /s mulNmx !mulmxA addrC.
+    by [].
+  by apply: posA; rewrite row_mx_eq0 negb_and yn0 orbT.
+rewrite E det_mulmx det_lblock !det1 !mul1r det_ublock.
+by apply: mulr_gt0; [exact: spd_mx11_gt0 | exact: IH].
+Qed.
+
+Lemma spd_det_gt0 n (A : 'M[F]_n) : spd A -> 0 < \det A.
+Proof.
+elim: n A => [|n IH] A sA; first by rewrite det_mx00 ltr01.
+exact: (@spd_det_step n IH A sA).
+Qed.
+
+End SpdDet.
+
+(* ------------------------------------------------------------------ *)
 (* Statements in terms of the model only (per-block / shared encodings,
    block-diagonal inverse and determinant, density = exp, definition)   *)
 Section Statements.
@@ -620,3 +682,67 @@ by rewrite div1r -[1 + 1]/(2%:R) (mx_get_ord _ ord0 ord0).
 Qed.
 
 End Definitions.
+
+(* ------------------------------------------------------------------ *)
+(* the arguments of ln are positive (derived from SPD, not assumed), and the
+   clause "the factorised density equals the direct one", per evaluation point *)
+Section Guards.
+Variable F : realFieldType.
+Variable tr : Transc F.
+Variable sq : forall n, 'M[F]_n -> 'M[F]_n.
+Variable eg : forall n, 'M[F]_n -> 'M[F]_(n,1).
+Let O := MxMat tr sq eg.
+Variables (bs nb k b rc : nat).
+Hypothesis bs0 : (0 < bs)%N.
+Notation d := (nb * bs)%N.
+Variables (input : M O d b) (mean : M O d 1) (U : M O d k) (R : M O bs rc).
+Notation blkR := (blk (tr:=tr) (sq:=sq) (eg:=eg) R).
+
+Lemma direct_logdet_guard n (cov : M O n n) : spd (cov : 'M[F]_n) -> 0 < (mdet cov : F).
+Proof. exact: spd_det_gt0. Qed.
+
+Lemma uvr_logdet_guard (V : M O k d) :
+  (forall t, (t < nb)%N -> blkR t \in unitmx) ->
+  spd (assembled_S (O:=O) U V R : 'M[F]_d) -> 0 < (uvr_det_S (O:=O) U V R : F).
+Proof. by move=> uB sS; rewrite (uvr_det_S_eq bs0 U V uB); exact: spd_det_gt0. Qed.
+
+Lemma uvr_det_R_guard :
+  (forall t, (t < nb)%N -> spd (blkR t)) -> 0 < (uvr_det_R (O:=O) nb R : F).
+Proof.
+move=> sB; rewrite -(Rd_det (tr:=tr) (sq:=sq) (eg:=eg) nb bs0 R).
+rewrite (blockdiag_BD (tr:=tr) (sq:=sq) (eg:=eg) nb bs0 R).
+by apply: spd_det_gt0; exact: BD_spd.
+Qed.
+
+Lemma uvr_logdet_guard_sym_factor :
+  (forall t, (t < nb)%N -> spd (blkR t)) ->
+  0 < (uvr_det_S (O:=O) U (mtr (m:=d) (n:=k) U) R : F).
+Proof.
+move=> sB; apply: uvr_logdet_guard; first by move=> t tn; exact: spd_unit (sB t tn).
+exact: (assembled_sym_factor_spd (tr:=tr) (sq:=sq) (eg:=eg) bs0 U sB).
+Qed.
+
+Lemma density_uvr_eq_direct (V : M O k d) :
+  (forall t, (t < nb)%N -> blkR t \in unitmx) ->
+  (assembled_S (O:=O) U V R : 'M[F]_d) \in unitmx ->
+  forall i, (i < b)%N ->
+    List.nth i (density_uvr (O:=O) input mean U V R) (t_exp tr 0) =
+    List.nth i (density_mat (O:=O) input mean (assembled_S (O:=O) U V R)) (t_exp tr 0).
+Proof.
+move=> uB uS i ib; rewrite density_uvr_exp density_mat_exp.
+by rewrite (uvr_eq_direct bs0 input mean uB uS ib) /log_density_mat nth_map_seq.
+Qed.
+
+Lemma log_density_uvr_eq_mat (V : M O k d) :
+  (forall t, (t < nb)%N -> blkR t \in unitmx) ->
+  (assembled_S (O:=O) U V R : 'M[F]_d) \in unitmx ->
+  log_density_uvr (O:=O) input mean U V R =
+  log_density_mat (O:=O) input mean (assembled_S (O:=O) U V R).
+Proof.
+move=> uB uS; apply: (List.nth_ext _ _ (0 : F) (0 : F)).
+  by rewrite log_density_uvr_length log_density_mat_length.
+move=> i; rewrite log_density_uvr_length => /ssrnat.ltP ib.
+by rewrite (uvr_eq_direct bs0 input mean uB uS ib) /log_density_mat nth_map_seq.
+Qed.
+
+End Guards.
